@@ -14,7 +14,7 @@ RULE = ('operand pairs over linear table units (any admissible prefix), #system 
         'case; distinct by (op, u, v, exponent form, operand kinds)')
 SHARDS = {'quick': 16, 'thorough': 16}
 MIN_NONTRIVIAL = {'quick': 5000, 'thorough': 150000}
-REQUIRED_CLASSES = ['operands-with-uncertainty', 'number-type:py', 'number-type:np.float64', 'number-type:np.int', 'number-type:ndarray', 'add', 'sub', 'mul', 'div', 'neg', 'pow-int', 'pow-pair', 'pow-float', 'pow-float-noninteger', 'reflected-number-left',
+REQUIRED_CLASSES = ['numpy-function-form', 'numpy-function-form:quantity-first', 'operands-with-uncertainty', 'number-type:py', 'number-type:np.float64', 'number-type:np.int', 'number-type:ndarray', 'add', 'sub', 'mul', 'div', 'neg', 'pow-int', 'pow-pair', 'pow-float', 'pow-float-noninteger', 'reflected-number-left',
                     'number-right', 'array', 'scalar', 'different-units-same-dimension', 'total-cancellation', 'partial-cancellation',
                     'refuse-different-dimension', 'refuse-reciprocal-dimension', 'refuse-number-plus-dimensional', 'compound-operand', 'sum-of-number-and-dimensionless-unit', 'both-operands-one-object', 'chain', 'chain:root-of-square', 'chain:product-of-halves', 'chain:np.sqrt-of-square']
 REQUIRED_MONITORS = ['base_value_compares', 'dimension_compares', 'unit_exponent_compares', 'refusals_demanded']
@@ -116,7 +116,7 @@ def cases(rng, tier, shard, nshards, ctx):
             selfflag = locals().get('selfflag', False) and kind == 'same-unit'
             if v is None and rng.random() < 0.3:
                 xb_ = rng.choice([0, 0.0, 1, False, True])       # the neutral elements and their bool spellings are numbers like any other
-            yield dict(op=op, u=u, v=v, kind=kind, xa=pick(rng), xb=xb_, arr=arr, side=rng.choice(['right', 'left']), numtype=rng.choice(['py', 'py', 'np.float64', 'np.int', 'ndarray']), self=selfflag, unc=rng.random() < 0.2)
+            yield dict(op=op, u=u, v=v, kind=kind, xa=pick(rng), xb=xb_, arr=arr, side=rng.choice(['right', 'left']), numtype=rng.choice(['py', 'py', 'np.float64', 'np.int', 'ndarray']), self=selfflag, unc=rng.random() < 0.2, npfunc=rng.random() < 0.15)
             selfflag = False
         elif r < 0.62:
             op = rng.choice(['mul', 'div'])
@@ -280,6 +280,9 @@ def _run(case, ctx):
     if not U.finite_ok(*(Ba + Bb)):
         return outcome(skip='overflow')
     unc = bool(case.get('unc'))            # measured operands: the VALUES obey the same arithmetic whatever uncertainty rides along
+    if case.get('npfunc') and op in ('add', 'sub', 'mul', 'div'):
+        classes.append('numpy-function-form')
+        classes.append('numpy-function-form:' + ('quantity-first' if not (case['v'] is None and case.get('side') == 'left') else 'number-first'))
     if unc:
         classes.append('operands-with-uncertainty')
         mkq = lambda xs, t: Q(list(xs), t, abse=0.01 * min(abs(z) for z in xs) + 1e-3) if arr else Q(xs[0], t, abse=0.01 * abs(xs[0]) + 1e-3)
@@ -315,6 +318,9 @@ def _run(case, ctx):
             else:
                 o = xb[0]
         l, r = (o, a) if left else (a, o)
+        if case.get('npfunc'):
+            # the same arithmetic written in NumPy's function form (np.add(q1, q2), np.divide(q, x), np.multiply(x, q))
+            return {'add': np.add, 'sub': np.subtract, 'mul': np.multiply, 'div': np.true_divide}[op](l, r)
         if op == 'add':
             return l + r
         if op == 'sub':
